@@ -592,9 +592,15 @@ func legacyEmpty(v reflect.Value) bool {
 // string; pointers to such are followed), invalid (runtime error under v2
 // semantics) or no effect (legacy semantics on other types).
 func stringApplies(d *tv.Desc, fl flags) (quoteIt, invalid bool) {
+	depth := 0
+	for d.K == "ptr" {
+		d = d.Elem
+		depth++
+	}
 	k := d.K
-	if k == "ptr" {
-		k = d.Elem.K
+	if depth >= 2 && fl.legacyString {
+		// like encoding/json, the legacy rule looks through one pointer only
+		return false, false
 	}
 	if isNumeric(k) {
 		return true, false
